@@ -72,7 +72,11 @@ def cls (bs : List Nat) : String :=
         | .bootloadWriteInProgress | .invalidNeedsErase => "sess:erase"
         | _ => "sess:keep"
     else "skip"
-  s!"bl={bl} fb={fb} rem={rem}"
+  let can := match ph with
+    | some (h, _) =>
+      if h.ext = Ext.inProgress then s!"w{Consts.EXT_OFFSET}:{toHex (writeU32 (encExt c .aborted))}" else "keep"
+    | none => "keep"
+  s!"bl={bl} fb={fb} rem={rem} can={can}"
 
 def mark (name : String) : String :=
   let c := Codec.new
